@@ -1804,13 +1804,7 @@ static int reference_in_sibling(const Ctx &ctx, const Json &plan, size_t begin_i
         return -1;
     if (pid == 0) {
         close(pfd[0]);
-        {
-            struct itimerval it; // processor-time limit of the reference sibling (see kernel.cc)
-            memset(&it, 0, sizeof it);
-            it.it_value.tv_sec = 60;
-            setitimer(ITIMER_PROF, &it, nullptr);
-            alarm(1200);
-        }
+        watchdog_arm(60); // processor-time limit of the reference sibling (see kernel.cc)
         Outcome dummy;
         Ctx c2 = ctx;
         c2.out = &dummy;
